@@ -425,7 +425,12 @@ def gen_sched(rng, est_steps=3000):
     if r < 0.55:
         strategy = ["rw", rng.choice([0.002, 0.01, 0.03, 0.1, 0.3]), rng.choice([0.1, 0.3, 0.6])]
     elif r < 0.85:
-        strategy = ["pct", rng.choice([1, 2, 3, 5]), rng.choice([est_steps // 2, est_steps, est_steps * 3])]
+        # (runs take a few hundred to a few thousand scheduling points: the window in which the priority change
+        #  points are placed is varied accordingly, and half of the PCT runs place them per thread-pool phase)
+        strategy = ["pct", rng.choice([1, 2, 3, 5]), rng.choice([est_steps // 10, est_steps // 4, est_steps // 2, est_steps,
+                                                                 est_steps * 3])]
+        if rng.random() < 0.5:
+            strategy.append(1)
     else:
         strategy = ["rtb"]
     g = rng.random()
